@@ -75,7 +75,7 @@ def run(ctx):
         r.check('handle:header-frame', len(rows2) == 1 and 'serialize::OutputBuffer::push_content_header(self.buf, self.channel_id, class_id, len, properties)' in rows2[0].effects, ctx.site(H0 + 'send_content_header'),
                 built=[x.effects for x in rows2])
         rows3 = P.table(ctx, 'serialize::OutputBuffer::push_content_header', ['self', 'channel_id', 'class_id', 'length', 'properties'])
-        want = 'amq_protocol::frame::generation::gen_content_header_frame(($c0, $c1), channel_id, class_id, (length as u64), properties)'
+        want = 'amq_protocol::frame::generation::gen_content_header_frame(($c0, $c1), channel_id, class_id, length, properties)'
         r.check('buffer:length-widened', len(rows3) == 1 and want in rows3[0].effects, ctx.site('serialize::OutputBuffer::push_content_header'), built=[x.effects for x in rows3], expected=want)
         fn = ctx.fn('serialize::OutputBuffer::push_content_header')
         r.eq('buffer:length-type', fn['inputs'][3], 'usize', ctx.site('serialize::OutputBuffer::push_content_header'), why='usize -> u64 cannot truncate')
